@@ -7,8 +7,10 @@ import (
 	"os"
 	"os/exec"
 	"path/filepath"
+	"runtime"
 	"strconv"
 	"sync"
+	"sync/atomic"
 	"syscall"
 	"time"
 
@@ -63,6 +65,8 @@ func WorkDir() string {
 	os.MkdirAll(d, 0o755)
 	return d
 }
+
+var stops atomic.Int64
 
 var (
 	dirMu  sync.Mutex
@@ -273,6 +277,11 @@ func (s *Srv) Stop() error {
 		case err = <-s.done:
 		case <-time.After(60 * time.Second):
 			err = fmt.Errorf("server did not stop within 60s")
+		}
+		// a stopped in-process server leaves its files to the finalizers; collect
+		// now and then so that descriptor use stays bounded over thousands of starts
+		if n := stops.Add(1); n%64 == 0 {
+			runtime.GC()
 		}
 	})
 	return err
